@@ -16,7 +16,7 @@ def cond_index(kw):
 
 
 def run_with_plan(inputs, plan=None, grace=0.0, workers=1):
-    """plan: {"search": {"<input index>:<cond>": "raise"|"timeout"|"uncertain"|"hold:<seconds>"}, "graph": {"<input index>": "raise"|"timeout"}}
+    """plan: {"search": {"<input index>:<cond>": "raise"|"timeout"|"uncertain"|"inner"|"hold:<seconds>"}, "graph": {"<input index>": "raise"|"timeout"}}
     (input index = position among the batch's inputs; "hold" keeps a finished search job back, so that with workers > 1 -- joblib's
     threading backend, observers stay in-process -- the jobs of a condition complete in a chosen order).  Returns a JSON-able record."""
     import logging, warnings
@@ -45,11 +45,28 @@ def run_with_plan(inputs, plan=None, grace=0.0, workers=1):
             raise RuntimeError("injected fault")
         if act == "timeout":
             time.sleep(5.0)    # well past the 2 s thread wait: the worker thread keeps running while later jobs are served
+        if act == "inner":
+            # a fault INSIDE the per-reactant loop of the search (the substructure lookup raises): the loop swallows it and leaves
+            # an unusable entry in its result list, which the caller has to contain
+            state["inner"] = True
+            try:
+                return o_fit(reaction_dict, **kw)
+            finally:
+                state["inner"] = False
         r = o_fit(reaction_dict, **kw)
         if act == "uncertain":
             return r[0], r[1], list(r[2]) + [None], r[3]
         return r
     patch(An, "fit", staticmethod(fit))
+    import synrbl.SynMCSImputer.SubStructure.mcs_graph_detector as mgd
+    o_ios = mgd.SubstructureAnalyzer.identify_optimal_substructure
+
+    def ios(self_, *a, **kw):
+        if state.get("inner"):
+            state["inner_hits"] = state.get("inner_hits", 0) + 1
+            raise RuntimeError("injected fault in the substructure lookup")
+        return o_ios(self_, *a, **kw)
+    patch(mgd.SubstructureAnalyzer, "identify_optimal_substructure", ios)
     o_safe = mp.single_mcs_safe
 
     def safe(data_dict, **kw):
@@ -138,7 +155,7 @@ def run_with_plan(inputs, plan=None, grace=0.0, workers=1):
         for r in rows or []:
             again.append({"reaction": r.get("reaction"), "issue": r.get("issue") if isinstance(r.get("issue"), str) else None, "solved": bool(r.get("solved"))})
         late = [a for a, b in zip(again, out) if (a["reaction"], a["issue"], a["solved"]) != (b["reaction"], b["issue"], b["solved"])]
-    return {"inputs": list(inputs), "plan": plan, "workers": workers, "rows": out, "stats": st, "jobs": jobs, "graph_jobs": glog, "after_find": snap.get("after_find"),
+    return {"inputs": list(inputs), "plan": plan, "workers": workers, "inner_hits": state.get("inner_hits", 0), "rows": out, "stats": st, "jobs": jobs, "graph_jobs": glog, "after_find": snap.get("after_find"),
             "selected": snap.get("_selected"), "solved_before": state.get("solved_before"), "error": err, "late_changes": late, "wall": time.time() - t0}
 
 
@@ -150,7 +167,8 @@ def run_many(items, procs=None):
     import multiprocessing as mp
     import pipe
     ctx = mp.get_context("spawn")
-    with ctx.Pool(min(procs, len(items)), initializer=pipe._worker_init) as pool:
+    # one fresh interpreter per item: whatever a run leaves behind in module state (memo tables, pools) cannot help or hide the next
+    with ctx.Pool(min(procs, len(items)), initializer=pipe._worker_init, maxtasksperchild=1) as pool:
         return pool.starmap(run_with_plan, items, chunksize=1)
 
 
